@@ -232,29 +232,33 @@ def find_compile_stamps(
 
     compile_stamp = None
     export_stamp = None
-    fh.seek(mz_offset)
-    mz = pestruct.IMAGE_DOS_HEADER(fh)
-    fh.seek(mz.e_lfanew + mz_offset)
-    signature = pestruct.uint32(fh).to_bytes(4, "little")
-    logger.debug("PE signature: %r", signature)
-    image = pestruct.IMAGE_FILE_HEADER(fh)
-    compile_stamp = image.TimeDateStamp
-    if image.Machine == pestruct.IMAGE_FILE_MACHINE_AMD64:
-        optional_header = pestruct.IMAGE_OPTIONAL_HEADER64(fh)
-    else:
-        optional_header = pestruct.IMAGE_OPTIONAL_HEADER(fh)
-    export_dd = optional_header.DataDirectory[pestruct.IMAGE_DIRECTORY_ENTRY_EXPORT]
-    sections = [pestruct.IMAGE_SECTION_HEADER(fh) for _ in range(image.NumberOfSections)]
-    ds = None
-    for section in sections:
-        if section.VirtualAddress <= export_dd.VirtualAddress < (section.VirtualAddress + section.VirtualSize):
-            ds = section
-            break
-    if ds is not None:
-        offset = export_dd.VirtualAddress - ds.VirtualAddress + ds.PointerToRawData + mz_offset
-        fh.seek(offset)
-        export_dir = pestruct.IMAGE_EXPORT_DIRECTORY(fh)
-        export_stamp = export_dir.TimeDateStamp
+    try:
+        fh.seek(mz_offset)
+        mz = pestruct.IMAGE_DOS_HEADER(fh)
+        fh.seek(mz.e_lfanew + mz_offset)
+        signature = pestruct.uint32(fh).to_bytes(4, "little")
+        logger.debug("PE signature: %r", signature)
+        image = pestruct.IMAGE_FILE_HEADER(fh)
+        compile_stamp = image.TimeDateStamp
+        if image.Machine == pestruct.IMAGE_FILE_MACHINE_AMD64:
+            optional_header = pestruct.IMAGE_OPTIONAL_HEADER64(fh)
+        else:
+            optional_header = pestruct.IMAGE_OPTIONAL_HEADER(fh)
+        export_dd = optional_header.DataDirectory[pestruct.IMAGE_DIRECTORY_ENTRY_EXPORT]
+        sections = [pestruct.IMAGE_SECTION_HEADER(fh) for _ in range(image.NumberOfSections)]
+        ds = None
+        for section in sections:
+            if section.VirtualAddress <= export_dd.VirtualAddress < (section.VirtualAddress + section.VirtualSize):
+                ds = section
+                break
+        if ds is not None:
+            offset = export_dd.VirtualAddress - ds.VirtualAddress + ds.PointerToRawData + mz_offset
+            fh.seek(offset)
+            export_dir = pestruct.IMAGE_EXPORT_DIRECTORY(fh)
+            export_stamp = export_dir.TimeDateStamp
+    except EOFError:
+        # truncated or corrupt PE headers, report what we have
+        pass
     return (compile_stamp, export_stamp)
 
 
@@ -345,19 +349,23 @@ def find_stage_prepend_append(
 
     logger.debug("stage prepend: %r", prepend)
 
-    fh.seek(mz_offset)
-    mz = pestruct.IMAGE_DOS_HEADER(fh)
-    fh.seek(mz.e_lfanew + mz_offset + 4)
-    image = pestruct.IMAGE_FILE_HEADER(fh)
-    if image.Machine == pestruct.IMAGE_FILE_MACHINE_AMD64:
-        optional_header = pestruct.IMAGE_OPTIONAL_HEADER64(fh)
-    elif image.Machine == pestruct.IMAGE_FILE_MACHINE_I386:
-        optional_header = pestruct.IMAGE_OPTIONAL_HEADER(fh)
-    else:
-        return (prepend, None)
+    try:
+        fh.seek(mz_offset)
+        mz = pestruct.IMAGE_DOS_HEADER(fh)
+        fh.seek(mz.e_lfanew + mz_offset + 4)
+        image = pestruct.IMAGE_FILE_HEADER(fh)
+        if image.Machine == pestruct.IMAGE_FILE_MACHINE_AMD64:
+            optional_header = pestruct.IMAGE_OPTIONAL_HEADER64(fh)
+        elif image.Machine == pestruct.IMAGE_FILE_MACHINE_I386:
+            optional_header = pestruct.IMAGE_OPTIONAL_HEADER(fh)
+        else:
+            return (prepend, None)
 
-    size = optional_header.SizeOfHeaders
-    sections = [pestruct.IMAGE_SECTION_HEADER(fh) for _ in range(image.NumberOfSections)]
+        size = optional_header.SizeOfHeaders
+        sections = [pestruct.IMAGE_SECTION_HEADER(fh) for _ in range(image.NumberOfSections)]
+    except EOFError:
+        # truncated or corrupt PE headers
+        return (prepend, None)
     for section in sections:
         size += section.SizeOfRawData
 
